@@ -51,6 +51,7 @@ type Model struct {
 	Obs     []MObs
 	Queries []MQuery
 	Locks   int
+	Late    int // component types registered during the history (KRegType)
 	Res     CSet
 	ResVal  [u.N]int64
 	NOps    int
@@ -384,6 +385,8 @@ func (m *Model) Plan(op *Op) *Exp {
 			ctx = m.Ents[op.E].Mask
 		}
 		x.Events = append(x.Events, MEvent{Ev: op.Ev, E: op.E, Changed: SetOf(op.Add...), ChangedMax: SetOf(op.Add...), Ctx: ctx, Exists: true})
+	case KRegType:
+		x.Structural = true
 	case KRegFilter, KUnregFilter, KRegObs, KUnregObs, KAddRes, KRemoveRes, KOpenQuery, KStepQuery, KCloseQuery, KStats, KDumpLoad:
 		// handled in Commit
 	case KMisuse:
@@ -419,6 +422,8 @@ func (m *Model) Commit(x *Exp) {
 		m.NAlive--
 	}
 	switch op.K {
+	case KRegType:
+		m.Late++
 	case KReset:
 		for i := range m.Ents {
 			m.Ents[i] = MEnt{}
